@@ -325,7 +325,7 @@ def run(F, R, tier):
     R.floor("C04-b FuturesUnordered fields", len(unordered), 1)
     for adt, fname in unordered:
         # consumers: `.next()` on that field
-        cons = [n for n in F.all_nodes() if n.get("k") == "MethodCall" and n["name"] == "next" and peel(n["recv"]).get("field") == fname]
+        cons = [n for n in F.all_nodes() if n.get("k") == "MethodCall" and n["name"] == "next" and field_of(n["recv"]) == fname]
         R.ob("C04-b", "%s.%s has a consumer" % (adt, fname), len(cons) >= 1, "no `.next()` consumer found", a["file"])
         for c in cons:
             lp = None
@@ -352,7 +352,7 @@ def run(F, R, tier):
                     bad.append("pushes to %s" % rt[:40])
                 if any(s in fn for s in ("Builder::load", "Builder::visit")):
                     bad.append("calls %s" % fn)
-                if n["name"] in ("insert", "get_mut", "remove", "entry") and peel(n["recv"]).get("field") in ("module_slots", "redirects"):
+                if n["name"] in ("insert", "get_mut", "remove", "entry") and field_of(n["recv"]) in ("module_slots", "redirects"):
                     key = peel_value(n["args"][0])
                     ok = False
                     if key.get("k") == "Field" and key["field"] == "specifier" and item and peel(key["e"]).get("lid") == item["lid"]:
@@ -365,7 +365,7 @@ def run(F, R, tier):
                                 if l.get("lid") == key.get("lid") and r.get("field") == "specifier" and item and peel(r["e"]).get("lid") == item["lid"]:
                                     ok = True
                     if not ok:
-                        bad.append("writes %s under key `%s`, not the completed item's own specifier" % (peel(n["recv"]).get("field"), expr_text(n["args"][0])))
+                        bad.append("writes %s under key `%s`, not the completed item's own specifier" % (field_of(n["recv"]), expr_text(n["args"][0])))
             R.ob("C04-b", "completion-ordered consumer of %s.%s only performs writes keyed by the completed item" % (adt, fname), not bad,
                  "; ".join(bad), where(c))
 
